@@ -192,6 +192,41 @@ def ecall_case(rng, mode, hazard=True, trace=40, run=400, dspec="-", ispec="-", 
     return Case(suite, lines, None, {"mode": mode, "hazard": hazard, "prog": prog, "regs": regs, "pokes": pokes, "d": dspec, "i": ispec})
 
 
+def x0_dest_program(rng):
+    """Instructions whose result is discarded (destination x0) — loads of every width, jumps, ALU operations — each
+    followed by an ordinary instruction that shows whether it still had its other effects (the memory access of a load is
+    made and counted, a jal/jalr still jumps)."""
+    prog = []
+    for _ in range(rng.choice([2, 3, 5])):
+        r = rng.random()
+        off = rng.choice([0, 4, 8, 16, 32, 64])
+        if r < 0.6:
+            op = rng.choice(LD_OPS)
+            prog.append(tok(op, 0, 2, 0, off + (rng.choice([0, 1, 2, 3]) if op in ("lb", "lbu") else rng.choice([0, 2]) if op in ("lh", "lhu") else 0)))
+            if rng.random() < 0.6:
+                prog.append(tok("lw", rng.choice([5, 10]), 2, 0, off))
+        elif r < 0.8:
+            prog.append(tok(rng.choice(R_OPS), 0, rng.choice([1, 5, 10]), rng.choice([1, 5, 10])))
+        else:
+            prog.append(tok("sw", 0, 2, rng.choice([1, 5]), off))
+    prog.append(tok("jal", 0, 0, 0, 8, 4 * len(prog) + 8))
+    prog.append(tok("addi", 10, 10, 0, 1))          # skipped
+    prog.append(tok("add", 6, 5, 10))
+    regs = {2: DATA, 1: rng.choice(BND32), 5: rng.choice(BND32), 10: rng.randrange(2**32)}
+    pokes = [(DATA + i, rng.randrange(256)) for i in range(0, 72, rng.choice([1, 3]))]
+    return prog, regs, pokes
+
+
+def x0_dest_case(rng, mode, hazard=True, trace=30, run=300, dspec="-", ispec="-", suite="sim-x0"):
+    prog, regs, pokes = x0_dest_program(rng)
+    lines = header(mode, hazard, dspec, ispec, prog, regs, pokes)
+    lines.append("sim.snap")
+    for _ in range(trace):
+        lines += ["sim.step", "sim.snap"]
+    lines += [f"sim.run {run}", "sim.snap"]
+    return Case(suite, lines, None, {"mode": mode, "hazard": hazard, "prog": prog, "regs": regs, "pokes": pokes, "d": dspec, "i": ispec})
+
+
 def penalty_cache_spec(rng, kind):
     """a cache with a miss penalty > 0 (small geometries, so that evictions happen)"""
     pol = rng.choice(["lru", "plru"])
